@@ -47,6 +47,8 @@ type scenario struct {
 	Post    int    `json:"post_restart_msgs"` // messages published only after the restart (the last Post of msgs)
 	Restart string `json:"restart"`           // "", "term", "kill": after the stop the tool is started again over what is there
 	Foreign int    `json:"foreign_ms"`        // >0: at this time somebody else creates, in the output dir, the names of the work files
+	Fault   string `json:"fault"`             // "<calls>:<errno>:<k>": the k-th call of that class fails with that errno (strace inject), e.g. an
+	//                                           fsync that reports EIO; the tool may give up, it must not acknowledge what the call was for
 	Probe   bool   `json:"foreign_on_probe"`  // whenever the tool looks whether a name in the output dir is free (stat / access = ENOENT) and is
 	//                                           held there by strace, somebody else creates exactly that name before it goes on
 	Seed    int64  `json:"seed"`
@@ -261,6 +263,10 @@ func runScenario(base string, sc scenario, bin string) (res scenResult) {
 			"link": "linkat", "unlink": "unlinkat"}[killClass]
 		// every return of that call is held for 40 ms: time for the watcher below to land the SIGKILL exactly there
 		args = append(args, "-e", "inject="+call+":delay_exit=40000")
+	}
+	if sc.Fault != "" && sc.Stop != "inject" {
+		f := strings.SplitN(sc.Fault, ":", 3)
+		args = append(args, "-e", "inject="+f[0]+":error="+f[1]+":when="+f[2])
 	}
 	probe := sc.Probe && o.WorkDir && sc.Stop != "inject"
 	if probe {
